@@ -121,11 +121,13 @@ void run_case(Tape& t, Stats& st) {
 	std::vector<uint8_t> v = seed_file(l, which, &fields);
 	unsigned k = 1 + unsigned(t.below(3));
 	for (unsigned i = 0; i < k; ++i) {
-		switch (t.below(6)) {
+		switch (t.below(8)) {
 		case 0: case 1: case 2: { if (fields.empty()) break; size_t at = fields[t.below(fields.size())]; if (at + 4 > v.size()) break; uint32_t old = refvol::get32(v, at); uint32_t nv = t.below(4) == 0 ? (t.flag() ? old + 1 : old - 1) : t.below(5) == 0 ? t.u32() : bnd[t.below(sizeof bnd / 4)]; for (int j = 0; j < 4; ++j) v[at + j] = uint8_t(nv >> (8 * j)); break; }
 		case 3: if (!v.empty()) v.resize(t.below(v.size())); break;
 		case 4: if (!v.empty()) v[t.below(v.size())] = t.u8(); break;
-		default: { auto ex = t.bytes(t.below(40)); v.insert(v.end(), ex.begin(), ex.end()); break; }
+		case 5: { auto ex = t.bytes(t.below(40)); v.insert(v.end(), ex.begin(), ex.end()); break; }
+		case 6: if (v.size() >= 54 && v[0] == 'B') { uint64_t sz = wrapped_pitch(int32_t(refvol::get32(v, 18)), refvol::get16(v, 28)) * uint64_t(int32_t(refvol::get32(v, 22)) < 0 ? -int64_t(int32_t(refvol::get32(v, 22))) : int32_t(refvol::get32(v, 22))); for (int j = 0; j < 4; ++j) v[34 + j] = uint8_t(sz >> (8 * j)); } break;   // stated image size made to agree with the (possibly changed) dimensions
+		default: if (v.size() >= 54 && v[0] == 'B') { uint32_t po = refvol::get32(v, 10) + uint32_t(t.below(3)) * 4; for (int j = 0; j < 4; ++j) v[2 + j] = uint8_t(po >> (8 * j)); if (t.flag() && po <= v.size()) v.resize(po); } break;   // file-size field pulled down to the pixel offset
 		}
 	}
 	if (st.want_sample()) st.sample(std::string("{\"loader\":\"") + (l == LPrt ? "prt" : l == LTileset ? "tileset" : "bmp") + "\",\"seed\":" + std::to_string(which) + ",\"bytes\":" + std::to_string(v.size()) + ",\"head\":\"" + hex(v, 32) + "\"}");
@@ -206,6 +208,40 @@ void run_sweep(Stats& st) {
 		p.images.push_back({scan, 0, 3, width, 0, uint16_t(pidx)}); p.images.push_back({4, 0, 1, 4, 0, uint16_t(np ? 0 : pidx)});
 		load_case(LPrt, refgfx::encode_prt(p), st, 0xFF, "prt_degenerate");
 	}
+	// a STATED image size that agrees with the dimensions while the file-size field / the file itself carry fewer (or no) pixel bytes: whatever
+	// is accepted must be safe to flip and save (the field a loader checks and the quantity that sizes its pixel container must not come apart)
+	for (unsigned depth : {8u, 4u, 1u}) for (unsigned dim = 0; dim < 4; ++dim) for (unsigned variant = 0; variant < 7; ++variant) {
+		if (!sw("stated_size", depth, dim, variant)) continue;
+		const int32_t dims[4][2] = {{32, 65536}, {32, -64}, {5, 3}, {33, -2}};
+		refgfx::LBmp b; b.depth = depth; b.width = dims[dim][0]; b.height = dims[dim][1]; for (size_t i = 0; i < (size_t(1) << depth); ++i) b.palette.push_back({uint8_t(i), 9, 8, 7});
+		uint64_t rows = uint64_t(b.height < 0 ? -int64_t(b.height) : b.height), full = refgfx::pitch(uint64_t(b.width), depth) * rows;
+		b.pixels.assign(size_t(full), 0x33); b.imageSize = uint32_t(full);
+		std::vector<uint8_t> v = refgfx::encode_bmp(b); size_t po = refvol::get32(v, 10);
+		auto setSize = [&](uint32_t x) { for (int j = 0; j < 4; ++j) v[2 + j] = uint8_t(x >> (8 * j)); };
+		switch (variant) {
+		case 0: break;                                                            // intact, stated size
+		case 1: v.resize(po); setSize(uint32_t(po)); break;                       // no pixel bytes, size field says so
+		case 2: v.resize(po); break;                                              // no pixel bytes, size field still claims them
+		case 3: v.resize(po + size_t(full / 2)); setSize(uint32_t(v.size())); break;
+		case 4: v.resize(po + size_t(full / 2)); break;
+		case 5: v.resize(v.size() - size_t(refgfx::pitch(uint64_t(b.width), depth))); setSize(uint32_t(v.size())); break;   // one row short
+		default: setSize(uint32_t(po)); break;                                    // all pixel bytes present, size field denies them
+		}
+		bool ok = load_case(LBmpReader, v, st, 0xFF, "stated_size");
+		if (variant == 0) V_CHECK(ok, "valid bitmap with a stated image size refused (depth " << depth << ", " << b.width << "x" << b.height << ")");
+		if (depth == 8 && b.width == 32) load_case(LTileset, v, st, 0xFF, "stated_size");
+	}
+	// rows wider than any staging buffer a writer might use (pitch 16 KiB, 64 KiB, 128 KiB and one more byte): load, then every follow-up must terminate
+	for (unsigned depth : {8u, 4u, 1u}) for (uint32_t pitchBytes : {16384u, 16388u, 65536u, 65540u, 131076u}) for (int32_t height : {1, -2}) {
+		if (!sw("wide_rows", depth, pitchBytes, uint64_t(height + 4))) continue;
+		refgfx::LBmp b; b.depth = depth; b.width = int32_t(uint64_t(pitchBytes) * 8 / depth - (pitchBytes % 8 ? 1 : 0)); b.height = height; for (size_t i = 0; i < (size_t(1) << depth); ++i) b.palette.push_back({uint8_t(i), 1, 2, 3});
+		b.pixels.assign(size_t(refgfx::pitch(uint64_t(b.width), depth) * uint64_t(height < 0 ? -height : height)), 0x11);
+		V_CHECK(load_case(LBmpReader, refgfx::encode_bmp(b), st, 0xFF, "wide_rows"), "valid wide bitmap refused (depth " << depth << ", width " << b.width << ")");
+	}
+	for (uint32_t width : {16385u, 70000u}) { if (!sw("prt_wide_image", width)) continue;
+		refgfx::LPrt p; std::array<std::array<uint8_t, 4>, 256> pal{}; p.palettes.push_back(pal); p.palHeaders.push_back({});
+		p.images.push_back({(width + 3) & ~3u, 0, 1, width, 0, 0}); p.images.push_back({4, 0, 1, 4, 0, 0});
+		V_CHECK(load_case(LPrt, refgfx::encode_prt(p), st, 0xFF, "prt_wide_image"), "valid PRT with a wide image refused"); }
 	// PRT counts near 2^32 and every image index on small files
 	for (unsigned which = 0; which < 4; ++which) { std::vector<size_t> f; auto full = seed_file(LPrt, which, &f); for (size_t fi = 0; fi < f.size() && fi < 40; ++fi) for (uint32_t nv : {0xFFFFFFFFu, 0xFFFFFFFEu, 0x80000000u, 0x10000000u, 0x0CCCCCCDu, 0x15555556u}) { if (!sw("prt_count", which, fi, nv)) continue; std::vector<uint8_t> b = full; size_t at = f[fi]; if (at + 4 > b.size()) continue; for (int j = 0; j < 4; ++j) b[at + j] = uint8_t(nv >> (8 * j)); load_case(LPrt, b, st, 0, "prt_count"); } }
 	st.exhaustive = true;
